@@ -212,6 +212,37 @@ def monitor(lines, outs):
 
 
 class Prop:
+    def continuations(self, lines, rng):
+        """random alloc / del / own / count suffixes (ending with freeall half of the time) that turn a
+        difference in slot choice or destruction order into a failing clause of C19, if there is one;
+        a trailing `freeall` of the shrunk history is first replaced by more operations"""
+        live, n = [], 0
+        for l in lines:
+            t = l.split()
+            if t[0] == "alloc":
+                n += 1
+                live.append(n)
+            elif t[0] == "del" and len(t) == 2 and int(t[1]) in live:
+                live.remove(int(t[1]))
+            elif t[0] == "freeall":
+                live = []
+        for k in range(400):
+            cur, m, seq = list(live), n, []
+            for _ in range(rng.randint(2, 10 + k // 10)):
+                r = rng.random()
+                if r < 0.5 or not cur:
+                    seq.append("alloc"); m += 1; cur.append(m)
+                elif r < 0.85:
+                    x = rng.choice(cur); cur.remove(x); seq.append("del %d" % x)
+                elif len(cur) >= 2:
+                    a, b = rng.sample(cur, 2); seq.append("own %d %d" % (a, b))
+                else:
+                    seq.append("count")
+            seq.append("count")
+            if rng.random() < 0.5:
+                seq.append("freeall")
+            yield seq
+
     def classify(self, lines, impl, crash, model):
         if crash:
             what = "FreeAll/Alloc/Free did not return (timeout)" if crash == "timeout" else "implementation crashed / sanitizer report: " + crash
